@@ -197,7 +197,7 @@ func checkC01(c *Ctx, r *Report) {
 			}
 		}
 		g := Guard{cl(
-			atomCmp("artifact==nil", vmCall(fnPrepareFlush), token.EQL, vmNil()),
+			atomCmp("artifact==nil", vmCallResult(0, fnPrepareFlush), token.EQL, vmNil()),
 			atomErrNil(fnUploadFlush))}
 		n := 0
 		for _, b := range fl.Blocks {
